@@ -212,12 +212,12 @@ def run_case(case):
                         want = d.min(1)
                         tol = 1e-7
                     if case["soft"] and scheme != "ca" and (case["soft"] / d.min(1) > 85).any() and \
-                            (np.abs(dist[:, k] - want) > tol).any():
+                            (~(np.abs(dist[:, k] - want) <= tol)).any():
                         # exp(beta/d) leaves the single-precision range: a separate, known root cause (see known_findings.jsonl)
                         viol.append(("contacts/soft-min-overflow", "pair %s: beta/d = %.0f overflows exp() in single precision; returned %s, "
                                      "documented soft minimum %s" % ((i, j), float((case["soft"] / d.min(1)).max()), dist[:, k], want)))
                         break
-                    if (np.abs(dist[:, k] - want) > tol).any():
+                    if (~(np.abs(dist[:, k] - want) <= tol)).any():
                         viol.append(("contacts/value", "pair %s scheme %s: returned %s, %s over the designated atom pairs gives %s" % (
                             (i, j), scheme, dist[:, k], "soft minimum" if case["soft"] else "minimum", want)))
                         break
